@@ -71,7 +71,7 @@ func runC14(r *Report, tier string) {
 		fn := P.mustFn(c.fn)
 		r.analysed(fn)
 		got := map[int64]string{}
-		for _, mp := range P.mapPuts(fn) {
+		for _, mp := range constPuts(P.putsDeep(fn, P.terms, allInstrs(fn), 0)) {
 			if mp.key != -1 {
 				got[mp.key] = mp.val.String()
 			}
@@ -411,17 +411,11 @@ func c14CurveTable(r *Report, keyT interface{ String() string }) {
 			if !known {
 				continue
 			}
-			p.instrs(func(in ssa.Instruction) {
-				if mu, ok := in.(*ssa.MapUpdate); ok {
-					k := p.eng.of(mu.Key)
-					if k.String() == "iface<int64>(-1)" {
-						v := p.eng.of(mu.Value)
-						if v.Op == "iface" {
-							got[alg] = v.Args[0].String()
-						}
-					}
+			for _, mp := range constPuts(P.putsDeep(fn, p.eng, p.instrs, 0)) {
+				if mp.key == -1 {
+					got[alg] = mp.val.String()
 				}
-			})
+			}
 		}
 		why := ""
 		for _, rw := range rows {
